@@ -98,6 +98,22 @@ def run(ctx: Ctx) -> None:
     o, h = do_update(lambda: HDict({"layers": [HDict({"name": a}), HDict({"name": b}), HDict({"name": c})]}), lambda: HDict({"layers": [None, HDict({"__delete__": True})]}))
     got = [dict(x) for x in h["d1"]["layers"]] if o.kind == "return" else o.exc
     ctx.check(got == [{"name": a}, {"name": c}], "U3", "list item carrying __delete__", loc_u, "", f"{got!r}")
+    # positions in the patch list refer to the positions of d1's list, whatever is deleted before them
+    X = V("X")
+    cases = [
+        ("delete first, then change second", [None, None, None], lambda: [HDict({"__delete__": True}), HDict({"color": X})], lambda n0: [dict(n0[1], color=X), n0[2]]),
+        ("delete first, None for second", [None, None], lambda: [HDict({"__delete__": True}), None], lambda n0: [n0[1]]),
+        ("two delete markers", [None, None, None], lambda: [HDict({"__delete__": True}), HDict({"__delete__": True})], lambda n0: [n0[2]]),
+        ("delete middle, change last", [None, None, None], lambda: [None, HDict({"__delete__": True}), HDict({"color": X})], lambda n0: [n0[0], dict(n0[2], color=X)]),
+        ("delete only item, append a new one", [None], lambda: [HDict({"__delete__": True}), HDict({"name": X})], lambda n0: [{"name": X}]),
+        ("delete marker beyond the end", [None], lambda: [None, HDict({"__delete__": True})], lambda n0: [n0[0]]),
+    ]
+    for name, shape, mkpatch, expect in cases:
+        names = [V(f"n{i}") for i in range(len(shape))]
+        o, h = do_update(lambda names=names: HDict({"layers": [HDict({"name": nm}) for nm in names]}), lambda mkpatch=mkpatch: HDict({"layers": mkpatch()}))
+        got = [dict(x) for x in h["d1"]["layers"]] if o.kind == "return" else o.exc
+        want = expect([{"name": nm} for nm in names])
+        ctx.check(got == want, "U3", f"list positions: {name}", loc_u, f"{len(want)} item(s) left", f"update of a list of {len(shape)} objects with the patch list ({name}) gives {got!r}, expected {want!r}: entries after a delete marker are applied to the wrong object")
     o, h = do_update(lambda: HDict({"k": a}), lambda: HDict({"__delete__": True}))
     ctx.check(o.kind == "return" and isinstance(o.value, dict) and not o.value, "U3", "root __delete__", loc_u, "", f"{o.value!r}")
 
